@@ -18,7 +18,8 @@ from harness.runner import Result, library_frame
 ID = "C08"
 LEVEL = "exploration"
 RULE = ("healthy: (device-type list) / (group set) / (current set, requested set, destination kind) tuples, each distinct "
-        "by construction; adversarial: answer streams, distinct by construction; non-trivial = multi-type list, or a "
+        "by construction; every short address 0..63 as a Short object and as a plain int x a few lists / sets / (current, "
+        "requested) pairs for each sequence, and x every failing pair of answers to the group queries for SetGroups; adversarial: answer streams, distinct by construction; non-trivial = multi-type list, or a "
         "stream that reaches the QUERY NEXT DEVICE TYPE loop, or a SetGroups pair with current != requested; well-behaved "
         "device-type lists of every length 0..254 (first n / last n / evenly spread types), on the unit model and as answer "
         "streams; histories on one line (units keep their state; the caller edits the sets / lists the queries returned and "
@@ -131,14 +132,15 @@ def bits_to_set(m):
 
 
 def prep_groups(case):
-    """{"kind": "qgroups", "mask": m[, "short": a]}"""
+    """{"kind": "qgroups", "mask": m[, "short": a, "as_int": bool]}"""
     sequences, address, exc = _load()
     cur = bits_to_set(case["mask"])
     a = case.get("short", 5 + case["mask"] % 50)
     unit = GearModel(short=a, groups=cur)
     bus = Bus([unit, GearModel(short=(a + 1) % 64, groups={1, 9})], max_commands=50)
-    return Job("qgroups", case, bus, lambda: sequences.QueryGroups(address.GearShort(a)),
-               "QueryGroups on a unit in groups %r" % (sorted(cur),), cur=cur)
+    return Job("qgroups", case, bus, lambda: sequences.QueryGroups(a if case.get("as_int") else address.GearShort(a)),
+               "QueryGroups(%s) on a unit in groups %r" % ("int %d" % a if case.get("as_int") else "short %d" % a, sorted(cur)),
+               cur=cur)
 
 
 def judge_groups(job, oc):
@@ -147,10 +149,10 @@ def judge_groups(job, oc):
         e = oc[1]
         if _harness_error(e):
             raise e
-        return [("C08:qgroups-raised:%s" % type(e).__name__, "QueryGroups on groups %r raised %r" % (sorted(cur), e))]
+        return [("C08:qgroups-raised:%s" % type(e).__name__, "%s raised %r" % (job.where, e))]
     r = oc[1]
     if r != cur or not isinstance(r, set):
-        return [("C08:qgroups-wrong", "QueryGroups on a unit in groups %r returned %r" % (sorted(cur), r))]
+        return [("C08:qgroups-wrong", "%s returned %r" % (job.where, r))]
     return []
 
 
@@ -160,19 +162,20 @@ def case_groups(case):
 
 
 def prep_setgroups(case):
-    """{"kind": "setgroups", "cur": mask, "req": mask, "dest": kind, "g": group used for a group destination}
+    """{"kind": "setgroups", "cur": mask, "req": mask, "dest": kind, "g": group used for a group destination,
+    "short": the unit's short address (default 17)}
     None when the precondition of a group destination does not hold."""
     sequences, address, exc = _load()
     cur, req = bits_to_set(case["cur"]), bits_to_set(case["req"])
     kind = case["dest"]
-    a = 17
+    a = case.get("short", 17)
     g = case.get("g", 0)
     if kind == "group":
         if g not in cur:
             return None        # precondition: the unit must be reachable through the group
     short = None if kind == "unaddressed" else a
     unit = GearModel(short=short, groups=cur)
-    bystander = GearModel(short=40, groups={2, 11})     # must not be touched by short/int destinations
+    bystander = GearModel(short=40 if a != 40 else 41, groups={2, 11})     # must not be touched by short/int destinations
     units = [unit, bystander] if kind in ("short", "int") else [unit]
     extra = []
     if kind in ("group", "broadcast", "unaddressed") and case.get("others", (case["cur"] ^ case["req"]) % 3):
@@ -182,10 +185,11 @@ def prep_setgroups(case):
             gs = bits_to_set((case["cur"] * (j + 3) + 0x1234 * (j + 1)) & 0xFFFF)
             if kind == "group":
                 gs.add(g)
-            extra.append(GearModel(short=None if kind == "unaddressed" else 50 + j, groups=gs))
+            extra.append(GearModel(short=None if kind == "unaddressed" else (a + 33 + j) % 64, groups=gs))
         units = units + extra
     bus = Bus(units, max_commands=100)
-    where = "SetGroups(%s, %r) on a unit in groups %r" % (kind if kind != "group" else "group %d" % g, sorted(req), sorted(cur))
+    where = "SetGroups(%s, %r) on a unit in groups %r" % (
+        "group %d" % g if kind == "group" else "%s %d" % (kind, a) if kind in ("short", "int") else kind, sorted(req), sorted(cur))
     # "groups is a set of integers": a set or a frozenset; the caller keeps using its own object afterwards
     given = frozenset(req) if (case["cur"] + case["req"]) % 2 else set(req)
     return Job("setgroups", case, bus, lambda: sequences.SetGroups(make_dest(address, kind, a, g), given), where,
@@ -386,12 +390,14 @@ def case_qgroups_stream(case):
 
 
 def prep_setgroups_fault(case):
-    """{"kind": "sgfault", "stream": [a0, a1]} - SetGroups(short) when the group queries fail."""
+    """{"kind": "sgfault", "stream": [a0, a1][, "short": a, "as_int": bool]} - SetGroups(short address, given as Short
+    or as int) when the group queries fail."""
     sequences, address, exc = _load()
     stream = case["stream"] + [0]
     bus = ScriptBus(stream, max_commands=40)
-    where = "SetGroups(short, {1,2}) when the group queries answer %r" % (case["stream"],)
-    return Job("sgfault", case, bus, lambda: sequences.SetGroups(address.GearShort(3), {1, 2}), where)
+    a = case.get("short", 3)
+    where = "SetGroups(%s %d, {1,2}) when the group queries answer %r" % ("int" if case.get("as_int") else "short", a, case["stream"])
+    return Job("sgfault", case, bus, lambda: sequences.SetGroups(a if case.get("as_int") else address.GearShort(a), {1, 2}), where)
 
 
 def judge_setgroups_fault(job, oc):
@@ -418,8 +424,8 @@ HISTORY_SHORTS = [17, 18, 40]
 
 
 def case_history(case):
-    """{"kind": "history", "units": [{"groups": mask, "types": [...]}, ...], "steps": [...]}: one program working on
-    one line for a while.  The units keep their state from step to step; what the sequences return is kept in numbered
+    """{"kind": "history", "units": [{"groups": mask, "types": [...]}, ...], "steps": [...][, "shorts": [a, b, c]]}: one
+    program working on one line for a while (the units sit at short addresses `shorts`, default 17, 18, 40).  The units keep their state from step to step; what the sequences return is kept in numbered
     slots and the caller does with it what callers do with a set / a list of their own: edits it, hands it back.
       ["qgroups", k, as_int]          QueryGroups(unit k)                        -> new slot
       ["types", k, as_int]            QueryDeviceTypes(unit k)                   -> new slot
@@ -430,7 +436,8 @@ def case_history(case):
     Every sequence is judged as it is judged on its own: the query returns exactly what the unit holds NOW, SetGroups
     leaves exactly the requested membership with exactly the necessary commands and touches nothing else."""
     sequences, address, exc = _load()
-    units = [GearModel(short=HISTORY_SHORTS[k], groups=bits_to_set(u["groups"]), device_types=u["types"])
+    shorts = case.get("shorts", HISTORY_SHORTS)
+    units = [GearModel(short=shorts[k], groups=bits_to_set(u["groups"]), device_types=u["types"])
              for k, u in enumerate(case["units"])]
     slots = []
     edited = False
@@ -440,7 +447,7 @@ def case_history(case):
         return ("C08:history-after-caller-edited-a-result:" if edited else "C08:") + tail
 
     def dest(k, as_int):
-        return HISTORY_SHORTS[k] if as_int else address.GearShort(HISTORY_SHORTS[k])
+        return shorts[k] if as_int else address.GearShort(shorts[k])
 
     for step in case["steps"]:
         op = step[0]
@@ -587,7 +594,11 @@ def history_st():
                 src = ["slot", draw(st.integers(0, nres - 1))] if nres and draw(st.booleans()) else \
                     ["mask", draw(st.one_of(st.integers(0, 0xFFFF), st.sampled_from(masks)))]
                 steps.append(["setgroups", draw(st.integers(0, 2)), src, draw(st.booleans())])
-        return {"kind": "history", "units": units, "steps": steps}
+        h = {"kind": "history", "units": units, "steps": steps}
+        if draw(st.booleans()):
+            h["shorts"] = draw(st.one_of(st.permutations(list(range(64))).map(lambda p: list(p[:3])),
+                                         st.sampled_from([[0, 1, 2], [63, 62, 0], [0, 63, 31], [62, 63, 61]])))
+        return h
     return gen()
 
 
@@ -856,12 +867,12 @@ def inter_st():
                                                                 max_size=6, unique=True))),
                     "short": short, "as_int": draw(st.booleans())}
         if kind == "qgroups":
-            return {"kind": "qgroups", "mask": draw(st.integers(0, 0xFFFF)), "short": short}
+            return {"kind": "qgroups", "mask": draw(st.integers(0, 0xFFFF)), "short": short, "as_int": draw(st.booleans())}
         if kind == "setgroups":
             cur, req, d, g = draw(st.integers(0, 0xFFFF)), draw(st.integers(0, 0xFFFF)), draw(st.sampled_from(DEST_KINDS)), draw(st.integers(0, 15))
             if d == "group":
                 cur |= 1 << g
-            return {"kind": "setgroups", "cur": cur, "req": req, "dest": d, "g": g, "others": draw(st.integers(0, 2))}
+            return {"kind": "setgroups", "cur": cur, "req": req, "dest": d, "g": g, "others": draw(st.integers(0, 2)), "short": short}
         if kind == "stream":
             return {"kind": "stream", "stream": draw(st.lists(st.sampled_from(ALPHABET + [2, 3, 100, 253]), min_size=1, max_size=8))}
         vals = ["none", "err", "err255", 0, 1, 0x80, 0xFF, 0x55]
@@ -869,7 +880,8 @@ def inter_st():
             return {"kind": "gstream", "stream": [draw(st.sampled_from(vals)), draw(st.sampled_from(vals))]}
         bad = draw(st.sampled_from(["none", "err", "err255"]))
         other = draw(st.sampled_from(vals))
-        return {"kind": "sgfault", "stream": [bad, other] if draw(st.booleans()) else [other, bad]}
+        return {"kind": "sgfault", "stream": [bad, other] if draw(st.booleans()) else [other, bad], "short": short,
+                "as_int": draw(st.booleans())}
 
     @st.composite
     def gen(draw):
@@ -952,6 +964,34 @@ def _shard(arg):
                                 run({"kind": "setgroups", "cur": cur, "req": req, "dest": d}, nt=cur != req,
                                     label="setgroups:" + d)
         res.sample({"kind": "setgroups", "cur": 0x1088, "req": 0x0006, "dest": "group", "g": 7}, cls="set groups")
+    elif kind == "every-address":
+        # every short address 0..63, given as a Short object and as a plain int, for every sequence: the healthy clauses
+        # (exact result, only the necessary changes, nothing else touched) and the fault clause (silent / garbled unit)
+        _, seed, addrs = arg
+        vals = ["none", "err", "err255", 0, 1, 0x80, 0xFF, 0x55]
+        bad = ("none",) + ERRS
+
+        def m(k):
+            return (seed * 40503 + k * 25717 + 0x1234) & 0xFFFF
+        for a in addrs:
+            pairs = [(0x0000, 0x0000), (0x0000, 0x0006), (0x1088, 0x0006), (0xFFFF, 0xFFFE), (0x00FF, 0xFF00), (m(a), m(a + 64)),
+                     (m(a + 128), m(a + 128) ^ (1 << (a % 16)))]
+            for as_int in (False, True):
+                d = "int" if as_int else "short"
+                for cur, req in pairs:
+                    run({"kind": "setgroups", "cur": cur, "req": req, "dest": d, "short": a}, nt=cur != req,
+                        label="every-address:setgroups:" + d)
+                for a0 in vals:
+                    for a1 in vals:
+                        if a0 in bad or a1 in bad:
+                            run({"kind": "sgfault", "stream": [a0, a1], "short": a, "as_int": as_int},
+                                label="every-address:setgroups-fault:" + d)
+                for mask in (0x0000, 0xFFFF, m(a + 7)):
+                    run({"kind": "qgroups", "mask": mask, "short": a, "as_int": as_int}, label="every-address:qgroups:" + d)
+                for types in ([], [a % 254], [0, 6, 8], [1, (a * 3) % 250 + 2, 253]):
+                    run({"kind": "types", "types": types, "short": a, "as_int": as_int}, nt=len(types) > 1,
+                        label="every-address:types:" + d)
+        res.sample({"kind": "sgfault", "stream": ["none", 0], "short": addrs[-1], "as_int": True}, cls="fault at a given address")
     elif kind == "streams":
         _, first_items, maxlen = arg
         for a0 in first_items:
@@ -982,13 +1022,14 @@ def _shard(arg):
                    classify=lambda t: ["hyp-types:len%s" % (len(t[0]) if len(t[0]) <= 8 else "9-16" if len(t[0]) <= 16 else
                                                             "17-64" if len(t[0]) <= 64 else "65-254")],
                    to_json=lambda t: {"kind": "types", "types": t[0], "short": t[1], "as_int": t[2]})
-        pair = st.tuples(st.integers(0, 0xFFFF), st.integers(0, 0xFFFF), st.sampled_from(DEST_KINDS), st.integers(0, 15))
+        pair = st.tuples(st.integers(0, 0xFFFF), st.integers(0, 0xFFFF), st.sampled_from(DEST_KINDS), st.integers(0, 15),
+                         st.one_of(st.integers(0, 63), st.sampled_from([0, 1, 62, 63])))
 
         def fix(t):
-            cur, req, d, g = t
+            cur, req, d, g, a = t
             if d == "group":
                 cur |= 1 << g
-            return {"kind": "setgroups", "cur": cur, "req": req, "dest": d, "g": g}
+            return {"kind": "setgroups", "cur": cur, "req": req, "dest": d, "g": g, "short": a}
         hyp.search(pair, lambda t: case_setgroups(fix(t)), res, n, seed + 1, ID,
                    nontrivial=lambda t: t[0] != t[1], classify=lambda t: ["hyp-setgroups:" + t[2]], to_json=fix)
         longer = st.lists(st.sampled_from(ALPHABET + [2, 3, 100, 253]), min_size=1, max_size=12)
@@ -1007,6 +1048,8 @@ def run(ctx):
     for k in range(4):
         shards.append(("types-lengths", k, 4))
         shards.append(("history", s, k, 4))
+    for k in range(8):
+        shards.append(("every-address", s, list(range(8 * k, 8 * k + 8))))
     st_ = 7 if q else 1
     for k in range(16):
         lo = k << 12
